@@ -49,6 +49,33 @@ def suite(wt):
     return sorted(base - passed)
 
 
+def still_missing(wt, patch, missing):
+    """Timing/port flakes under load: a baseline test that is missing twice is excused when its
+    package does not depend on any package touched by the patch; otherwise it is re-run alone
+    (up to 3 times) and counts only if it never passes."""
+    touched = set()
+    for line in open(patch):
+        if line.startswith("+++ b/"):
+            touched.add("github.com/zmap/zcrypto/" + os.path.dirname(line[6:].strip()))
+    out = []
+    for t in missing:
+        pkg, test = t.split("::")
+        rc, deps = sh("go list -deps %s" % pkg, cwd=wt, env=goenv())
+        if not (touched & set(deps.split())):
+            print("excused (package independent of the patch):", t)
+            continue
+        rel = "./" + pkg[len("github.com/zmap/zcrypto/"):]
+        ok = False
+        for _ in range(3):
+            rc, o = sh("go test -vet=off -count=1 -run '^%s$' %s" % (test.split("/")[0], rel), cwd=wt, env=goenv())
+            if rc == 0:
+                ok = True
+                break
+        if not ok:
+            out.append(t)
+    return out
+
+
 def main():
     ap = argparse.ArgumentParser()
     ap.add_argument("pid")
@@ -124,6 +151,8 @@ def main():
                     print("suite: %d missing on first run (%s...), re-running" % (len(missing), missing[:3]))
                     again = suite(wt)
                     missing = sorted(set(missing) & set(again))
+                if missing:
+                    missing = still_missing(wt, patch, missing)
                 print("suite with patch: %d baseline tests missing" % len(missing))
                 if missing:
                     print("NOT CONFIRMED: existing tests fail with the mutant:", missing[:10])
